@@ -205,12 +205,19 @@ func multiBatchImport(fast bool, compress bool, oneVersion bool) string {
 		if compress {
 			im = iavl.NewCompressImporter(imp)
 		}
-		for _, n := range nodes {
+		// everything but the root arrives; Commit may refuse or not, then the import is closed twice
+		// (an explicit Close on the error path plus a deferred one; Close may be called repeatedly)
+		for _, n := range nodes[:len(nodes)-1] {
 			if err := im.Add(cloneNode(n)); err != nil {
 				return "Add: " + err.Error()
 			}
 		}
+		committed := imp.Commit() == nil
 		imp.Close()
+		imp.Close()
+		if committed {
+			return "" // an incomplete stream that commits is judged by the enumeration of streams, not here
+		}
 		t2 := iavl.NewMutableTree(ab, 0, !fast, iavl.NewNopLogger())
 		v, err := t2.Load()
 		if err != nil {
@@ -218,6 +225,87 @@ func multiBatchImport(fast bool, compress bool, oneVersion bool) string {
 		}
 		if v != 0 || len(t2.AvailableVersions()) != 0 {
 			return fmt.Sprintf("abandoned multi-batch import: version %d visible (%v)", v, t2.AvailableVersions())
+		}
+		return ""
+	})
+}
+
+// emptyKeyRoundTrip: the empty byte string is a valid key (the smallest one). A tree that contains it is
+// exported and imported with both codecs; hash, contents and the behaviour under one more write must agree.
+func emptyKeyRoundTrip(compress, fast bool) string {
+	return watchdog(30*time.Second, func() string {
+		src := iavl.NewMutableTree(dbm.NewMemDB(), 0, !fast, iavl.NewNopLogger())
+		keys := [][]byte{{}, []byte("a"), []byte("ab"), []byte("b"), {0x00}, {0x00, 0x00}}
+		for i, k := range keys {
+			if _, err := src.Set(k, []byte(fmt.Sprintf("v%d", i))); err != nil {
+				return fmt.Sprintf("Set(%x): %v", k, err)
+			}
+		}
+		hash, ver, err := src.SaveVersion()
+		if err != nil {
+			return err.Error()
+		}
+		it, err := src.GetImmutable(ver)
+		if err != nil {
+			return err.Error()
+		}
+		exp, err := it.Export()
+		if err != nil {
+			return err.Error()
+		}
+		var ex iavl.NodeExporter = exp
+		if compress {
+			ex = iavl.NewCompressExporter(exp)
+		}
+		var nodes []*iavl.ExportNode
+		for {
+			n, err := ex.Next()
+			if errors.Is(err, iavl.ErrorExportDone) {
+				break
+			}
+			if err != nil {
+				return "Exporter.Next: " + err.Error()
+			}
+			nodes = append(nodes, n)
+		}
+		exp.Close()
+		t := iavl.NewMutableTree(dbm.NewMemDB(), 0, !fast, iavl.NewNopLogger())
+		if _, err := t.Load(); err != nil {
+			return err.Error()
+		}
+		imp, err := t.Import(ver)
+		if err != nil {
+			return err.Error()
+		}
+		var im iavl.NodeImporter = imp
+		if compress {
+			im = iavl.NewCompressImporter(imp)
+		}
+		for _, n := range nodes {
+			if err := im.Add(n); err != nil {
+				imp.Close()
+				return fmt.Sprintf("Importer.Add of an exported node (key %x): %v", n.Key, err)
+			}
+		}
+		if err := imp.Commit(); err != nil {
+			return "Importer.Commit: " + err.Error()
+		}
+		imp.Close()
+		if !bytes.Equal(t.Hash(), hash) {
+			return "the imported tree has another root hash"
+		}
+		for i, k := range keys {
+			v, err := t.Get(k)
+			if err != nil || string(v) != fmt.Sprintf("v%d", i) {
+				return fmt.Sprintf("imported tree: Get(%x) = %s, %v", k, v, err)
+			}
+		}
+		_, _ = src.Set([]byte{}, []byte("again"))
+		_, _ = t.Set([]byte{}, []byte("again"))
+		h1, _, err1 := src.SaveVersion()
+		h2, _, err2 := t.SaveVersion()
+		if err1 != nil || err2 != nil || !bytes.Equal(h1, h2) {
+			return fmt.Sprintf("after one more write the hashes differ (%v, %v)", err1, err2)
 		}
 		return ""
 	})
@@ -412,6 +500,8 @@ var allScenarios = map[string]func() string{
 	"large-rollback/mem/flush100000/index-on": func() string { return largeRollback("mem", 100000, true) },
 	"chunked-rollback/mem/flush150":           func() string { return chunkedRollback("mem", 150) },
 	"chunked-rollback/level/flush100000":      func() string { return chunkedRollback("level", 100000) },
+	"empty-key-round-trip/plain":              func() string { return emptyKeyRoundTrip(false, true) },
+	"empty-key-round-trip/compressed":         func() string { return emptyKeyRoundTrip(true, false) },
 	"large-index-rebuild/mem/flush150":        func() string { return largeIndexRebuild("mem", 150) },
 	"large-index-rebuild/level/flush150":      func() string { return largeIndexRebuild("level", 150) },
 	"multi-batch-import/index-on/plain":       func() string { return multiBatchImport(true, false, false) },
